@@ -30,7 +30,7 @@ NOT_COVERED = ("position and velocity CONSTRAINT satisfaction (projection onto t
 ASSUMPTIONS = ["step size in (1/1024, 1), report offset r in (0, h), tolerance in (0, 1/2)"]
 
 
-def instances(tier, seed):
+def _instances(tier, seed):
     th = tier == "thorough"
     out = []
     integs = ("ExplicitEuler", "RungeKuttaMerson") + (("RungeKutta3", "Verlet") if th else ())
@@ -52,6 +52,15 @@ def instances(tier, seed):
             for rep in ("step", "interp"):
                 out.append(dict(name="presc/%s/%s/%s" % (mo, ig, rep), args=["presc", mo, ig, rep], base_points=1 if not th else 2, paths=1, max_terms=4000,
                                 abstract_big=True, pc_max_terms=1))
+    return out
+
+
+def instances(tier, seed):
+    out = _instances(tier, seed)
+    for i in out:
+        # wall-clock bounds: a twin (satisfiable by design) that nlsat cannot settle quickly is simply not counted as refuted
+        i.setdefault("twin_timeout_ms", 15000)
+        i.setdefault("z3_timeout_ms", 120000)
     return out
 
 
